@@ -4,6 +4,7 @@ import FlVerif.Lemmas.ConsequentLoad
 import FlVerif.Lemmas.AntecedentSound
 import FlVerif.Lemmas.Reject
 import FlVerif.Lemmas.CodeRule
+import FlVerif.Lemmas.CodeLoad
 
 /-! # C16 — Malformed rule text is rejected cleanly, never accepted
 
@@ -128,6 +129,18 @@ theorem single_error_trailing_token (ts : List String) (p : ParsedRule) (h : rul
   simp [parseLoop, hs]
 
 /-! ## `Consequent.load` -/
+
+/-- **Tie A (code → model).**  `Gen.Code.Consequent_load` is regenerated from the source of `Consequent.load` on every
+    run (`fv/pylean.py`; the local `proposition` is translated as an alias of the last element of `conclusions`).  For
+    every engine and every consequent text it raises the exception class the model `Op.consequentLoad` predicts, and
+    otherwise the propositions it assigns to `self.conclusions` are the conclusions of the model (variable name, hedge
+    names, term name), each holding the output variable the engine has under that name. -/
+theorem code_consequentLoad (e : EngineInfo) (text : String) :
+    match consequentLoad e text with
+    | .error k => Gen.Code.Consequent_load.run e text {} = .error k.toPy
+    | .ok cs => ∃ σ, Gen.Code.Consequent_load.run e text {} = .ok σ ∧ σ.self_conclusions.map propConc = cs ∧
+        ∀ p ∈ σ.self_conclusions, e.findOut p.variable_.name = some p.variable_ :=
+  Op.code_consequentLoad e text
 
 /-- **`Consequent.load` accepts exactly** a non-empty list of conclusions `v is h* t` joined by `and`, where `v` is an
     output variable of the engine, the `h` are registered hedges and `t` is a term of `v` – and returns exactly those
